@@ -19,6 +19,13 @@ mod vfile;
 //#[cfg(feature = "htx")]
 mod htx;
 
+/// verification hooks.
+#[cfg(feature = "abyssiniandb_verif")]
+pub mod verif {
+    pub use super::key::verif::key_layout_sweep;
+    pub use super::val::verif::value_layout_sweep;
+}
+
 //#[cfg(feature = "node_cache")]
 //mod nc;
 
